@@ -50,6 +50,7 @@ type FrameBounds struct {
 	SmallDomain      bool     // few distinct values (grouping, filtering)
 	NoNullStr        bool
 	ManyEnumValues   bool // now and then an enum column with 32..70 distinct values
+	Clustered        bool // every column consists of runs of equal cells (8..60 rows long) cycling through a few values: keys recur after other keys, unsorted
 	SumFloats        bool // float cells are finite values whose sum depends on the order of addition (0.1, 1e16, -1e16, ...)
 	LongNames        bool // column names of 35..250 characters (wider than any fixed-size scratch space)
 }
@@ -58,7 +59,7 @@ var intPool = []int{0, 1, -1, 2, 3, 7, 42, -42, 1 << 31, -(1 << 31), math.MaxInt
 	// neighbours beyond 2^53 (distinct ints, one float64) and next to the limits
 	1 << 53, 1<<53 + 1, 1<<53 + 2, -(1 << 53) - 1, math.MaxInt64 - 1, math.MinInt64 + 1, 1 << 62, 1<<62 + 1}
 var floatPool = []float64{0, math.Copysign(0, -1), 1, -1, 1.5, 0.1, 1e21, 1e-7, 123456789.125, math.MaxFloat64, math.SmallestNonzeroFloat64, 9007199254740993, 1e19, 9.3e18, -2.5e-300}
-var strPool = []string{"", "a", "b", "abc", "A", " ", " a ", "a,b", "\"", "\"\"", "a\"b", "\n", "a\nb", "é", "漢字", "\xff", "\xc3", "0", "1", "true", "null", "NaN", "'", "\\", "\t", "\x00", " ", "x\x01y", "ab", "a\x00", "$", "%", "é́", "\ufffd", "a\ufffdb", "\u2028", "\u2029", "\x7f", "\xed\xa0\x80", "\xf0\x9f\x98\x80", "\xc0\x80", "\ufeff", "\ufeffa", "\x0b", "\x08", "\x0c", "\x1f", "a\x0bb", "\x1b[0m", "\x85", "\u0085", "sep=;", "sep=|", "sep=,"}
+var strPool = []string{"", "a", "b", "abc", "A", " ", " a ", "a,b", "\"", "\"\"", "a\"b", "\n", "a\nb", "é", "漢字", "\xff", "\xc3", "0", "1", "true", "null", "NaN", "'", "\\", "\t", "\x00", " ", "x\x01y", "ab", "a\x00", "$", "%", "é́", "\ufffd", "a\ufffdb", "\u2028", "\u2029", "\x7f", "\xed\xa0\x80", "\xf0\x9f\x98\x80", "\xc0\x80", "\ufeff", "\ufeffa", "\x0b", "\x08", "\x0c", "\x1f", "a\x0bb", "\x1b[0m", "\x85", "\u0085", "sep=;", "sep=|", "sep=,", "\\N", "NA", "NULL", "\x1a", "a\x1a", "1,5", "#x"}
 
 var pow10u = func() []uint64 {
 	p := []uint64{1}
@@ -238,6 +239,11 @@ func DrawFrame(t *rapid.T, b FrameBounds) *FrameSpec {
 		}
 	}
 	used := map[string]bool{}
+	clusterRun, clusterM := 1, 2
+	if b.Clustered {
+		clusterRun = []int{8, 9, 33, 40, 60}[rapid.IntRange(0, 4).Draw(t, "runlen")]
+		clusterM = rapid.IntRange(2, 3).Draw(t, "framerunvals")
+	}
 	for i := 0; i < ncols; i++ {
 		c := ColSpec{Name: drawName(t, b, i, used)}
 		c.Type = typesAllowed[rapid.IntRange(0, len(typesAllowed)-1).Draw(t, "type")]
@@ -310,6 +316,35 @@ func DrawFrame(t *rapid.T, b FrameBounds) *FrameSpec {
 			}
 			if c.Strs == nil {
 				c.Strs = []*string{}
+			}
+		}
+		if b.Clustered && fs.NRows > 0 {
+			// row i takes the cell of row (i/run) mod m: runs of one value, the
+			// same few values coming back again and again
+			// (one run length for the whole frame, so that any set of columns
+			// taken together is constant over each run as well)
+			m := clusterM
+			if rapid.IntRange(0, 3).Draw(t, "ownrunvals") == 0 {
+				m = rapid.IntRange(2, 4).Draw(t, "runvals")
+			}
+			// the cells of the last m rows are the values (read before any row is rewritten)
+			base := fs.NRows - m
+			if base < 0 {
+				base = 0
+			}
+			ints, floats, bools, strs := append([]int{}, c.Ints...), append([]float64{}, c.Floats...), append([]bool{}, c.Bools...), append([]*string{}, c.Strs...)
+			for r := 0; r < fs.NRows; r++ {
+				src := base + (r/clusterRun)%m%(fs.NRows-base)
+				switch c.Type {
+				case "int":
+					c.Ints[r] = ints[src]
+				case "float":
+					c.Floats[r] = floats[src]
+				case "bool":
+					c.Bools[r] = bools[src]
+				default:
+					c.Strs[r] = strs[src]
+				}
 			}
 		}
 		fs.Cols = append(fs.Cols, c)
@@ -398,6 +433,7 @@ type Scramble struct {
 type ScrOp struct {
 	Kind    string `json:"kind"` // sort slice keep
 	Col     string `json:"col,omitempty"`
+	Col2    string `json:"col2,omitempty"`
 	Reverse bool   `json:"reverse,omitempty"`
 	A       int    `json:"a,omitempty"`
 	B       int    `json:"b,omitempty"`
@@ -408,9 +444,9 @@ type ScrOp struct {
 func DrawScramble(t *rapid.T, fs *FrameSpec) Scramble { return drawScramble(t, fs, allKinds) }
 
 var (
-	allKinds    = []int{0, 1, 2, 3, 4, 5, 6, 7}
+	allKinds    = []int{0, 1, 2, 3, 4, 5, 6, 7} // 8 (overwrite) only where nothing is keyed by the generated column specs
 	indexKinds  = []int{0, 1, 2}
-	layoutKinds = []int{0, 1, 2, 0, 1, 2, 6, 7}
+	layoutKinds = []int{0, 1, 2, 0, 1, 2, 6, 7, 8, 9}
 )
 
 // DrawScrambleOrEmpty is DrawScramble that now and then ends in
@@ -453,9 +489,26 @@ func drawScramble(t *rapid.T, fs *FrameSpec, kinds []int) Scramble {
 		case 5:
 			c := fs.Cols[rapid.IntRange(0, len(fs.Cols)-1).Draw(t, "cpcol")]
 			s.Ops = append(s.Ops, ScrOp{Kind: "copy", Col: c.Name})
+		case 9:
+			// sorted on two columns, then the less significant one overwritten:
+			// whatever the frame remembers about its order is out of date
+			if len(fs.Cols) >= 3 {
+				p := rapid.Permutation([]int{0, 1, 2}).Draw(t, "sortow")
+				a, b2, c := fs.Cols[p[0]%len(fs.Cols)].Name, fs.Cols[p[1]%len(fs.Cols)].Name, fs.Cols[p[2]%len(fs.Cols)].Name
+				s.Ops = append(s.Ops, ScrOp{Kind: "sort", Col: a, Col2: b2}, ScrOp{Kind: "overwrite", Col: b2, Col2: c})
+			}
+		case 8:
+			// one column overwritten with the cells of another (same name, new content)
+			dst := fs.Cols[rapid.IntRange(0, len(fs.Cols)-1).Draw(t, "owdst")]
+			src := fs.Cols[rapid.IntRange(0, len(fs.Cols)-1).Draw(t, "owsrc")]
+			s.Ops = append(s.Ops, ScrOp{Kind: "overwrite", Col: dst.Name, Col2: src.Name})
 		case 0:
 			c := fs.Cols[rapid.IntRange(0, len(fs.Cols)-1).Draw(t, "scol")]
-			s.Ops = append(s.Ops, ScrOp{Kind: "sort", Col: c.Name, Reverse: rapid.Bool().Draw(t, "rev")})
+			op := ScrOp{Kind: "sort", Col: c.Name, Reverse: rapid.Bool().Draw(t, "rev")}
+			if rapid.Bool().Draw(t, "sort2") {
+				op.Col2 = fs.Cols[rapid.IntRange(0, len(fs.Cols)-1).Draw(t, "scol2")].Name
+			}
+			s.Ops = append(s.Ops, op)
 		case 1:
 			s.Ops = append(s.Ops, ScrOp{Kind: "slice", A: rapid.IntRange(0, 3).Draw(t, "sa"), B: rapid.IntRange(0, 3).Draw(t, "sb")})
 		case 2:
@@ -472,7 +525,17 @@ func (s Scramble) Apply(qf qframe.QFrame) qframe.QFrame {
 		switch op.Kind {
 		case "sort":
 			if qf.Contains(op.Col) { // an earlier select/aggregate may have dropped it
-				qf = qf.Sort(qframe.Order{Column: op.Col, Reverse: op.Reverse})
+				orders := []qframe.Order{{Column: op.Col, Reverse: op.Reverse}}
+				if op.Col2 != "" && op.Col2 != op.Col && qf.Contains(op.Col2) {
+					orders = append(orders, qframe.Order{Column: op.Col2})
+				}
+				qf = qf.Sort(orders...)
+			}
+		case "overwrite":
+			if op.Col != op.Col2 && op.Col != "__id" && qf.Contains(op.Col) && qf.Contains(op.Col2) {
+				if res := qf.Copy(op.Col, op.Col2); res.Err == nil {
+					qf = res
+				}
 			}
 		case "slice":
 			n := qf.Len()
